@@ -10,6 +10,7 @@ func init() {
 	Props["C05"] = &PropSpec{Level: "other", Rules: []string{"R10"}, Explanation: "tbd"}
 	Props["C16"] = &PropSpec{Level: "other", Rules: []string{"R39", "R40"}, Explanation: "tbd"}
 	Props["C14"] = &PropSpec{Level: "other", Rules: []string{"R37", "R38"}, Explanation: "tbd"}
+	Props["C07"] = &PropSpec{Level: "other", Rules: []string{"R15", "R15p", "R16"}, Explanation: "tbd"}
 	Props["C17"] = &PropSpec{Level: "proof", Rules: []string{"R41"}, Explanation: "tbd"}
 	Props["C15"] = &PropSpec{Level: "other", Rules: []string{"R42"}, Explanation: "tbd"}
 	Props["C13"] = &PropSpec{Level: "other", Rules: []string{"R34", "R35", "R36"}, Explanation: "tbd"}
